@@ -604,6 +604,7 @@ def apply_contract(I, c, ex, args, kwargs):
                 o.fields[parts[-1]] = M.models_rt_havoc(I, cur, "h_" + parts[-1], kind)
             except OutOfFragment:
                 o.fields[parts[-1]] = Opaque('object', 'havoc_' + parts[-1])
+            P.event('field.write', id(o), parts[-1])
     result = None
     has_result = c.result_kind is not None
     if has_result:
@@ -612,7 +613,7 @@ def apply_contract(I, c, ex, args, kwargs):
     result_bound = False
 
     def covered(ltxt):
-        if ltxt in c.modifies_:
+        if ltxt in c.modifies_ or ltxt.startswith('result.'):
             return True
         pre = ltxt.rsplit('.', 1)[0]
         return (pre + '.*') in c.modifies_
@@ -631,7 +632,7 @@ def apply_contract(I, c, ex, args, kwargs):
         for node in conjuncts(parse_expr(src)):
             e2 = pyvc.Env(dict(loc), G, ex.cls, '<spec>', None)
             e2.spec, e2.old = True, old
-            if isinstance(node, ast.Compare) and len(node.ops) == 1 and isinstance(node.ops[0], ast.Eq):
+            if isinstance(node, ast.Compare) and len(node.ops) == 1 and isinstance(node.ops[0], (ast.Eq, ast.Is)):
                 left = node.left
                 ltxt = ast.unparse(left)
                 if ltxt == 'result' and not result_bound:
